@@ -465,14 +465,23 @@ static int on_sigint(Tickit *t, TickitEventFlags flags, void *info, void *data)
 
 void tickit_tick(Tickit *t, TickitRunFlags flags)
 {
+  /* a callback may drop the application's last reference; the instance must
+   * outlive the loop that is running its callbacks */
+  tickit_ref(t);
+
   if(!t->done_setup && !(flags & TICKIT_RUN_NOSETUP))
     setupterm(t);
 
   (*t->evhooks->run)(t->evdata, TICKIT_RUN_ONCE | flags);
+
+  tickit_unref(t);
 }
 
 void tickit_run(Tickit *t)
 {
+  /* as in tickit_tick() */
+  tickit_ref(t);
+
   void *sigint_watch = tickit_watch_signal(t, SIGINT, 0, &on_sigint, NULL);
 
   if(!t->done_setup)
@@ -481,6 +490,8 @@ void tickit_run(Tickit *t)
   (*t->evhooks->run)(t->evdata, TICKIT_RUN_DEFAULT);
 
   tickit_watch_cancel(t, sigint_watch);
+
+  tickit_unref(t);
 }
 
 void tickit_stop(Tickit *t)
@@ -784,6 +795,13 @@ void tickit_watch_cancel(Tickit *t, void *_watch)
 {
   TickitWatch *watch = _watch;
 
+  /* the UNBIND notification may drop the application's last reference; the
+   * instance must outlive the cancellation that is notifying (not while it is
+   * being destroyed: tickit_destroy() cancels watches itself) */
+  bool hold = t->refcount > 0;
+  if(hold)
+    tickit_ref(t);
+
   switch(watch->type) {
     case WATCH_IO:
       cancel_watch_in(t, &t->iowatches, watch);
@@ -805,8 +823,11 @@ void tickit_watch_cancel(Tickit *t, void *_watch)
       break;
 
     case WATCH_NONE:
-      return;
+      break;
   }
+
+  if(hold)
+    tickit_unref(t);
 }
 
 int tickit_evloop_next_timer_msec(Tickit *t)
